@@ -995,7 +995,7 @@ pub fn main(tier: Tier, replay: Option<String>) -> i32 {
         }
         return code;
     }
-    let ctx = Ctx::new("C23", tier, "exploration");
+    let ctx = Ctx::new("C23", tier, "fault_enumeration");
     ctx.set_rule(
         "per decoder: valid encodings from the public encoders / from the files of a database built through SQL, then 0..4 mutations \
          (bit flip, byte set, truncate, insert, delete, splice, length-field edit; biased to header bytes), 1/9 raw byte strings; \
